@@ -57,6 +57,11 @@ class RpmVersion(NamedTuple):
     def __ge__(self, other):
         return compare_rpm_versions(self, other) >= 0
 
+    def __hash__(self):
+        # equal versions can be spelled differently ("1.0" and "1_0", "1.01" and
+        # "1.1"): hash the segments that vercmp() compares
+        return hash((self.epoch, Vercmp.segments(self.version), Vercmp.segments(self.release)))
+
 
 def from_evr(s):
     """
@@ -134,6 +139,21 @@ class Vercmp:
     R_NONALNUMTILDE_CARET = re.compile(rb"^([^a-zA-Z0-9~\^]*)(.*)$")
     R_NUM = re.compile(rb"^([\d]+)(.*)$")
     R_ALPHA = re.compile(rb"^([a-zA-Z]+)(.*)$")
+
+    R_SEGMENT = re.compile(rb"[a-zA-Z]+|[0-9]+|~|\^")
+
+    @classmethod
+    def segments(cls, version):
+        """
+        Return a tuple of the segments of a ``version`` string that compare()
+        looks at: tildes, carets, letters and numbers without leading zeros.
+        Two versions that compare() finds equal have the same segments.
+        """
+        version = version.encode("ascii", "ignore")
+        return tuple(
+            segment.lstrip(b"0") if segment.isdigit() else segment
+            for segment in cls.R_SEGMENT.findall(version)
+        )
 
     @classmethod
     def compare(cls, first, second):
